@@ -65,20 +65,58 @@ func tokAddr(t int) common.Address {
 	return crypto.CreateAddress(creator, nonce)
 }
 
-// concretise a specification byte string: values >= 256 are bytes of symbolic (created) addresses.
-func concBytes(xs []int) []byte {
+// conc concretises specification values of one dump line: bytes >= 256 are symbolic.  [256, hBase): byte of a
+// CREATE address (KVMWords!SymB); >= hBase: byte j of the Keccak hash of the h-th byte string the specification
+// listed as hashed (KVMWords!HashB), computed here with lib/crypto Keccak256.
+const (
+	hBase  = 1 << 24
+	h2Base = tokBase + (1 << 29)
+)
+
+type conc struct{ hashes [][]byte }
+
+func newConc(hs [][]int) *conc {
+	c := &conc{}
+	for _, pre := range hs { // a listed string may contain bytes of earlier hashes
+		c.hashes = append(c.hashes, crypto.Keccak256(c.bytes(pre)))
+	}
+	return c
+}
+
+func (c *conc) bytes(xs []int) []byte {
 	out := make([]byte, len(xs))
 	for i, x := range xs {
-		if x < 256 {
+		switch {
+		case x < 256:
 			out[i] = byte(x)
-		} else {
+		case x < hBase:
 			a := tokAddr((x - 256) / 20)
 			out[i] = a[(x-256)%20]
+		default:
+			h, j := (x-hBase)/32, (x-hBase)%32
+			if h >= 1 && h <= len(c.hashes) {
+				out[i] = c.hashes[h-1][j]
+			}
 		}
 	}
 	return out
 }
-func concWord(xs []int) common.Hash { return common.BytesToHash(concBytes(xs)) }
+func (c *conc) word(xs []int) common.Hash { return common.BytesToHash(c.bytes(xs)) }
+
+// addr: the real address of a specification address id (CREATE2 ids: low 20 bytes of hash number id - h2Base)
+func (c *conc) addr(id int64) common.Address {
+	if id >= h2Base {
+		h := int(id - h2Base)
+		if h >= 1 && h <= len(c.hashes) {
+			return common.BytesToAddress(c.hashes[h-1][12:])
+		}
+		return common.Address{}
+	}
+	return idAddr(id)
+}
+
+// concBytes: byte strings without hash bytes (code, call data of the header)
+func concBytes(xs []int) []byte { return (&conc{}).bytes(xs) }
 
 // ---------------------------------------------------------------------------------------------------------
 // pre-state
@@ -153,6 +191,38 @@ type tracer struct {
 	maxDepth int
 	gasErr   bool // a frame ended with ErrOutOfGas / ErrCodeStoreOutOfGas / ErrGasUintOverflow
 	steps    int
+	lastOp   rkvm.OpCode // the instruction about to execute when the last line was logged, and the size class
+	lastCls  string      // of its largest operand (for the signature of a panic)
+}
+
+// operand class of the (at most 7) top stack items: where the largest one lies relative to 2^31, 2^32, 2^63, 2^64
+func operandClass(scope *rkvm.ScopeContext) string {
+	st := scope.Stack.Data()
+	max := 0
+	for i := len(st) - 1; i >= 0 && i >= len(st)-7; i-- {
+		if b := st[i].BitLen(); b > max {
+			max = b
+		}
+	}
+	switch {
+	case max <= 31:
+		return "operands-below-2^31"
+	case max <= 32:
+		return "operand-below-2^32"
+	case max <= 63:
+		return "operand-below-2^63"
+	case max <= 64:
+		return "operand-below-2^64"
+	}
+	return "operand-from-2^64"
+}
+
+// panicSig: kvm:panic:<instruction>:<operand class>
+func (r *runResult) panicSig() string {
+	if r.tr == nil || r.tr.steps == 0 {
+		return "kvm:panic:before-first-instruction"
+	}
+	return "kvm:panic:" + r.tr.lastOp.String() + ":" + r.tr.lastCls
 }
 
 func (t *tracer) note(err error) {
@@ -166,6 +236,7 @@ func (t *tracer) CaptureState(pc uint64, op rkvm.OpCode, gas, cost uint64, scope
 	if err == nil {
 		t.ops[byte(op)]++
 		t.steps++
+		t.lastOp, t.lastCls = op, operandClass(scope)
 	}
 	if n := len(scope.Stack.Data()); n > t.maxStack {
 		t.maxStack = n
